@@ -161,11 +161,12 @@ theorem playGamePos_load (L : Leaves α) (P : Params α) (le : ρ → ρ → Boo
   exact h
 
 /-- `playGamePos` depends on the objects handed to `rate` only through their numbers -/
-theorem playGamePos_congr (L : Leaves α) (P : Params α) (le : ρ → ρ → Bool) (neg : ρ → ρ)
+theorem playGamePos_congr (L : Leaves α) (P : Params α) (hg : GammaIdInv P.gamma)
+    (le : ρ → ρ → Bool) (neg : ρ → ρ)
     (s : Store α) (g : LeagueGame α ρ) (ts ts' : List (List (Rating α)))
     (h : valuesOf ts = valuesOf ts') :
     playGamePos L P le neg s g ts = playGamePos L P le neg s g ts' := by
-  have := C20_rate_values_of_eq g.kind L P le neg ts ts' g.outcome g.opts h
+  have := C20_rate_values_of_eq g.kind L P hg le neg ts ts' g.outcome g.opts h
   simp only [valuesOf] at this
   simp only [playGamePos, this]
 
